@@ -5,9 +5,11 @@ package webrtc
 // In-package: an RTPReceiver is assembled the way rtpreceiver_test.go's own helper does
 // (configureReceive + receiveForRid + receiveForRtx, nil SRTP streams) with two fake
 // interceptor.RTPReaders: the primary stream returns recognisable sentinel packets, the
-// repair stream returns the generated RTX packets one at a time and tells the harness when
-// the receiver's repair goroutine comes back for the next one (= the previous packet has
-// been processed; no sleeps, no timing).  TrackRemote.Read is called on the case's goroutine.
+// repair stream returns the generated RTX packets and tells the harness when the receiver's
+// repair goroutine comes back for the next one (= the previous packet has been processed;
+// no sleeps, no timing).  Packets are fed in bursts of 1..8 before TrackRemote.Read (on the
+// case's goroutine) reads them back, so a queued packet must survive the processing of the
+// following ones (pooled-buffer reuse).
 //
 // Oracle, per RTX packet whose RTX payload has >= 2 bytes: the bytes Read returns equal the
 // harness-built image of the original packet: same first octet (V/P/X/CC), marker,
@@ -818,7 +820,7 @@ func TestVerif_C26_Unwrap(t *testing.T) {
 		Assumptions: []string{
 			"the primary stream's payload type is known to the track (one primary packet is read first, as PeerConnection's own peek does)",
 			"RTX packets are well-formed RTP (what SRTP decryption lets through) and fit the receive MTU; corrupt ones are fed without assertions",
-			"one RTX packet is outstanding at a time (the 50-slot hand-over channel never overflows)",
+			"RTX packets arrive in bursts of 1..8 before the application reads (the 50-slot hand-over channel is empty before each burst, so the receiver never legitimately skips one); within a burst packets are read back in the order fed",
 			"padding filler octets are not significant; the padding count is",
 			"attributes rtx_payload_type/rtx_ssrc/rtx_sequence_number are asserted because constants.go documents them",
 			"cases run in a child process so that a crash of the receiver's repair goroutine is attributed to the case (class C26/crash/...)",
